@@ -11,6 +11,7 @@
 #include "gen.hpp"
 #include "place_detailed/row_legalizer.hpp"
 #include "place_global/density_legalizer.hpp"
+#include "place_global/net_model.hpp"
 #include "place_global/transportation.hpp"
 #include "place_global/transportation_1d.hpp"
 #include "project.hpp"
@@ -194,6 +195,43 @@ static Value genDensity(vg::Rng &r) {
   pr.set("square", ss).set("squareO", ss > 1 ? r.in(1, ss - 1) : 1).set("t1d", r.chance(0.5)).set("quad", r.in(0, 3)).set("coarsen", r.pick(std::vector<int>{1, 10, 100}));
   Value v = Value::object();
   v.set("regions", regions).set("bin", bin).set("demands", Value::from(dem)).set("tx4", tx).set("ty4", ty).set("ops", seq).set("params", pr);
+  return v;
+}
+
+// C17: a small net list with dyadic weights / offsets / fixed pin positions; every cell is tied (directly or through a chain)
+// to a fixed pin so that the least-squares problem is well posed
+static Value genNetw(vg::Rng &r) {
+  int n = (int)r.in(1, 6);
+  Value nets = Value::array();
+  std::vector<int> w4s = {1, 2, 4, 4, 8, 3, 6};     // weights x 4: 0.25 .. 4, including values below 1
+  auto pin = [&](int cell, long long off4) { return Value::object().set("c", cell).set("o4", off4); };
+  // chain: cell i tied to cell i-1 (or to a fixed pin for cell 0)
+  for (int i = 0; i < n; ++i) {
+    Value pins = Value::array();
+    pins.push(pin(i + 1, r.in(-8, 8)));
+    if (i == 0 || r.chance(0.3)) pins.push(pin(0, r.in(-200, 200)));   // cell 0 = fixed pin, o4 = position x 4
+    else pins.push(pin((int)r.in(1, i), r.in(-8, 8)));
+    nets.push(Value::object().set("w4", r.pick(w4s)).set("pins", pins));
+  }
+  int extra = (int)r.in(0, 5);
+  for (int k = 0; k < extra; ++k) {
+    int deg = (int)r.in(2, 4);
+    Value pins = Value::array();
+    for (int j = 0; j < deg; ++j) {
+      if (r.chance(0.25)) pins.push(pin(0, r.in(-200, 200)));
+      else pins.push(pin((int)r.in(1, n), r.in(-8, 8)));
+    }
+    nets.push(Value::object().set("w4", r.pick(w4s)).set("pins", pins));
+  }
+  Value v = Value::object();
+  Value tgt = Value::array(), str = Value::array();
+  for (int i = 0; i < n; ++i) {
+    tgt.push(r.in(-100, 100));
+    str.push(r.pick(std::vector<int>{1, 2, 4, 8}));   // strength x 4
+  }
+  v.set("n", n).set("nets", nets).set("model", r.in(0, 3)).set("tgt4", tgt).set("str4", str);
+  v.set("tol", r.pick(std::vector<int>{6, 6, 4}));   // CG tolerance 1e-<tol>
+  v.set("cut4", r.pick(std::vector<int>{1, 4, 40})).set("eps4", r.pick(std::vector<int>{1, 2, 8}));
   return v;
 }
 
@@ -412,7 +450,86 @@ static void runDensity(int run, const Value &in) {
   }
 }
 
+static NetModel buildNetModel(const Value &in, double scale) {
+  int n = (int)in["n"].asInt();
+  NetModel m(n);
+  const Value &nets = in["nets"];
+  for (size_t k = 0; k < nets.size(); ++k) {
+    std::vector<int> cells;
+    std::vector<float> offs;
+    const Value &pins = nets[k]["pins"];
+    for (size_t j = 0; j < pins.size(); ++j) {
+      cells.push_back((int)pins[j]["c"].asInt() - 1);   // 0 -> -1 = fixed pin
+      offs.push_back((float)pins[j]["o4"].asInt() * 0.25f);
+    }
+    m.addNet(cells, offs, (float)(nets[k]["w4"].asInt() * 0.25 * scale));
+  }
+  m.check();
+  return m;
+}
+
+static Value bitsOf(const std::vector<float> &v) {
+  Value a = Value::array();
+  for (float f : v) a.push(vp::floatBits(f));
+  return a;
+}
+static Value fix10(const std::vector<float> &v) {
+  Value a = Value::array();
+  for (float f : v) a.push((long long)std::llround((double)f * 128.0));
+  return a;
+}
+
+static void runNetw(int run, const Value &in) {
+  int n = (int)in["n"].asInt();
+  NetModel::Parameters p;
+  p.netModel = (NetModelOption)in["model"].asInt();
+  p.tolerance = std::pow(10.0f, -(float)in["tol"].asInt());
+  p.maxNbIterations = 1000;
+  p.approximationDistance = (float)in["eps4"].asInt() * 0.25f;
+  p.penaltyCutoffDistance = (float)in["cut4"].asInt() * 0.25f;
+  std::vector<float> tgt, str;
+  for (long long v : in["tgt4"].longs()) tgt.push_back((float)v * 0.25f);
+  for (long long v : in["str4"].longs()) str.push_back((float)v * 0.25f);
+  auto solveAll = [&](double scale, std::vector<float> &x0, std::vector<float> &x1, std::vector<float> &x2) {
+    NetModel m = buildNetModel(in, scale);
+    x0 = m.solveStar(p);
+    x1 = m.solve(x0, p);
+    std::vector<float> s = str;
+    for (float &v : s) v = (float)(v * scale);
+    x2 = m.solveWithPenalty(x1, tgt, s, p);
+  };
+  std::vector<float> b0, b1, b2;
+  solveAll(1.0, b0, b1, b2);
+  Value ev = vt::ev("NetSolve");
+  ev.set("run", run).set("n", n).set("nets", in["nets"]).set("x0", fix10(b0)).set("tol", in["tol"]);
+  bool finite = true;
+  for (float f : b0) finite = finite && std::isfinite(f) && std::fabs(f) < 1e4;
+  ev.set("finite", finite);
+  vt::emit(ev);
+  static const int ks[] = {-3, -2, -1, 1, 2, 3, 4};
+  for (int k : ks) {
+    std::vector<float> s0, s1, s2;
+    solveAll(std::ldexp(1.0, k), s0, s1, s2);
+    Value e = vt::ev("NetScale");
+    e.set("run", run).set("k", k).set("dyadic", true).set("model", in["model"]);
+    e.set("b0", bitsOf(b0)).set("s0", bitsOf(s0)).set("b1", bitsOf(b1)).set("s1", bitsOf(s1)).set("b2", bitsOf(b2)).set("s2", bitsOf(s2));
+    vt::emit(e);
+  }
+  for (double f : {2.5, 7.0}) {
+    std::vector<float> s0, s1, s2;
+    solveAll(f, s0, s1, s2);
+    Value e = vt::ev("NetScale");
+    e.set("run", run).set("k", (long long)std::llround(f * 2)).set("dyadic", false).set("model", in["model"]);
+    e.set("b0", fix10(b0)).set("s0", fix10(s0)).set("b1", fix10(b1)).set("s1", fix10(s1)).set("b2", fix10(b2)).set("s2", fix10(s2));
+    vt::emit(e);
+  }
+}
+
 static void execute(const std::string &scen, int run, const Value &in) {
+  if (scen == "netw") {
+    runNetw(run, in);
+    return;
+  }
   if (scen == "density") {
     runDensity(run, in);
     return;
@@ -499,7 +616,7 @@ int main(int argc, char **argv) {
   long long seed = argi("seed", 1), first = argi("first", 0), runs = argi("runs", 10);
   for (long long k = first; k < first + runs; ++k) {
     vg::Rng r((uint64_t)seed * 1000003ULL + (uint64_t)k);
-    Value in = scen == "rowhist" ? genRowHist(r) : scen == "transport" ? genTransport(r, argi("big", 0)) : scen == "density" ? genDensity(r) : genT1d(r);
+    Value in = scen == "rowhist" ? genRowHist(r) : scen == "transport" ? genTransport(r, argi("big", 0)) : scen == "density" ? genDensity(r) : scen == "netw" ? genNetw(r) : genT1d(r);
     Value begin = vt::ev("AlgoBegin");
     begin.set("run", (long long)k).set("scen", scen).set("inst", in);
     vt::emit(begin);
